@@ -235,3 +235,5 @@ NOT_COVERED = [
     "resolve_params (top-level spreads), merge_repeated_kwargs, process_aggregate_kwargs, _extract_flags are not yet under contract",
     "den() of an atom is stock Django's FilterExpression (that IS the property's meaning of an atom)",
 ]
+
+import contracts.c13b  # noqa: E402,F401  (merge_repeated_kwargs: repeated kwargs, shared with C13)
